@@ -61,8 +61,8 @@ Definition f_parts (f : float) : option (Z * Z) :=
   if is_nan f || is_infinity f then None
   else if is_zero f then Some (0, 0)
   else let (r, e) := frshiftexp (abs f) in
-       let m := Uint63.to_Z (normfr_mantissa r) in
-       Some (if get_sign f then - m else m, Uint63.to_Z e - FloatOps.shift - 53).
+       let m := Uint63.to_Z_rec 53 (normfr_mantissa r) in          (* mantissa < 2^53, shifted exponent < 2^12 *)
+       Some (if get_sign f then - m else m, Uint63.to_Z_rec 12 e - FloatOps.shift - 53).
 
 Definition f_to_Q (f : float) : option Q :=
   match f_parts f with
@@ -70,16 +70,18 @@ Definition f_to_Q (f : float) : option Q :=
   | None => None
   end.
 
-(* math.ceil on a float: exact; inf -> OverflowError, nan -> ValueError *)
+(* math.ceil on a float: exact; inf -> OverflowError, nan -> ValueError.
+   v * 2^e with e < 0: floor division by 2^-e is an arithmetic right shift *)
 Definition f_ceil (f : float) : res Z :=
   match f_parts f with
-  | Some (v, e) => Ok (if 0 <=? e then v * 2 ^ e else - ((- v) / 2 ^ (- e)))
+  | Some (v, e) => Ok (if 0 <=? e then Z.shiftl v e else - (Z.shiftr (- v) (- e)))
   | None => if is_nan f then Err EValue else Err EOverflow
   end.
 
 Definition f_trunc (f : float) : res Z :=
   match f_parts f with
-  | Some (v, e) => Ok (if 0 <=? e then v * 2 ^ e else Z.quot v (2 ^ (- e)))
+  | Some (v, e) => Ok (if 0 <=? e then Z.shiftl v e
+                       else if v <? 0 then - (Z.shiftr (- v) (- e)) else Z.shiftr v (- e))
   | None => if is_nan f then Err EValue else Err EOverflow
   end.
 
@@ -277,6 +279,8 @@ Module Ledger.
     | S f => if n <? rng then Qred (acc + inject_Z n * price)%Q
              else tier_go f rng mult (Qred (acc + inject_Z rng * price)%Q) (Qred (mult * price)%Q) (n - rng)
     end.
+
+  Definition tier_fuel (rng n : Z) : nat := S (Z.to_nat (n / rng)).
 
   Fixpoint tier_prefix (k : nat) (rng : Z) (mult : Q) (acc price : Q) : Q * Q :=
     match k with
